@@ -456,7 +456,7 @@ theorem step_exit_WKeeps (w : World) (t : TaskId) (c : CtxId) (be : BlockEnd) :
       refine WKeeps.trans ?_ (WKeeps.setCur _ _ _)
       refine WKeeps.setCtx hx ?_
       have h1 : Keeps x { x with state := .closing, tds := [] } := Keeps.of_tables rfl rfl
-      have h2 := (runTeardown_ext c be x.tds { x with state := .closing, tds := [] }).keeps
+      have h2 := (runTeardown_ext c be (effStack be x.tds) { x with state := .closing, tds := [] }).keeps
       exact (h1.trans h2).trans (Keeps.of_tables rfl rfl)
 
 theorem step_inject_WKeeps (w : World) (t : TaskId) (isAsync : Bool) (deps : List Dep)
